@@ -27,9 +27,21 @@ impl MemcacheBinaryConnection {
     pub async fn read_frame(&mut self) -> Result<Option<BinaryRequest>, io::Error> {
         let _extras_length: u32 = 8;
         loop {
+            #[cfg(memcrs_verif)]
+            crate::verif::emit(
+                "conn.decode",
+                self.buffer.len() as u64,
+                self.verif_peer_port(),
+            );
             // Attempt to parse a frame from the buffered data. If enough data
             // has been buffered, the frame is returned.
             if let Some(frame) = self.codec.decode(&mut self.buffer)? {
+                #[cfg(memcrs_verif)]
+                crate::verif::emit(
+                    "conn.frame",
+                    frame.get_header().opcode as u64,
+                    self.buffer.len() as u64,
+                );
                 match frame {
                     BinaryRequest::ItemTooLarge(request) => {
                         debug!(
@@ -60,6 +72,12 @@ impl MemcacheBinaryConnection {
             //
             // On success, the number of bytes is returned. `0` indicates "end
             // of stream".
+            #[cfg(memcrs_verif)]
+            crate::verif::emit(
+                "conn.read.before",
+                self.buffer.len() as u64,
+                self.verif_peer_port(),
+            );
             if 0 == self.stream.read_buf(&mut self.buffer).await? {
                 // The remote closed the connection. For this to be a clean
                 // shutdown, there should be no data in the read buffer. If
@@ -89,6 +107,8 @@ impl MemcacheBinaryConnection {
 
         loop {
             bytes_read = self.stream.read_buf(&mut buffer).await?;
+            #[cfg(memcrs_verif)]
+            crate::verif::emit("conn.skip", bytes_read as u64, self.verif_peer_port());
 
             // The remote closed the connection. For this to be a clean
             // shutdown, there should be no data in the read buffer. If
@@ -127,6 +147,11 @@ impl MemcacheBinaryConnection {
                 panic!("Read too much bytes socket corrupted");
             }
         }
+    }
+
+    #[cfg(memcrs_verif)]
+    fn verif_peer_port(&self) -> u64 {
+        self.stream.peer_addr().map(|a| a.port() as u64).unwrap_or(0)
     }
 
     pub async fn write(&mut self, msg: &BinaryResponse) -> io::Result<()> {
